@@ -174,6 +174,47 @@ def dispatch_clause(model, rep, funcs):
                "the neutral mask)", ok, det, node=chain, fn=f, clause="mask dispatch", stmt=f"dispatch over {pname} in {f.short}")
 
 
+def halfmap_selection_obligations(rep, f, a, clause):
+    # the half maps handed back to the caller are the two members of each split: an index on axis 1 of the (n_set, 2, *shape) array.  A reshape
+    # re-interprets the memory order, it cannot exchange axes: `halves.reshape((2, n_set) + ...)` mixes maps of different splits for n_set >= 2
+    tuples = [c for c in calls_in(f) if (dotted(c.func) or "").rsplit(".", 1)[-1] == "FscTuple" and len(c.args) >= 2]
+    for c in tuples:
+        hm = Matcher(f).expr(c.args[1])
+        if not (isinstance(hm, ast.Tuple) and len(hm.elts) == 2):
+            continue
+        rep.instance("S11.fsc", f.loc(c))
+        verdict, dets = True, []
+        def _sources(e_, depth=0):
+            # the expression and, for plain names, what they were bound to (tuple unpacking included), two levels deep
+            out = [e_]
+            if depth < 2:
+                for nm_ in {x.id for x in ast.walk(e_) if isinstance(x, ast.Name)}:
+                    for st in walk_no_nested(f.node):
+                        if isinstance(st, ast.Assign):
+                            for t in st.targets:
+                                names_ = [t.id] if isinstance(t, ast.Name) else [y.id for y in getattr(t, "elts", []) if isinstance(y, ast.Name)]
+                                if nm_ in names_:
+                                    out += _sources(st.value, depth + 1)
+            return out
+
+        for k, e in enumerate(hm.elts):
+            srcs_ = _sources(e)
+            if any(isinstance(x, ast.Call) and isinstance(x.func, ast.Attribute) and x.func.attr in ("reshape", "ravel", "flatten", "view") for s_ in srcs_ for x in ast.walk(s_)) or \
+                    any(isinstance(x, ast.Call) and (dotted(x.func) or "").rsplit(".", 1)[-1] == "reshape" for x in ast.walk(e)):
+                verdict = False
+                dets.append(f"half map {k} is taken from a reshape of the split array (`{norm_src(e)[:60]}`): reshape keeps the memory order, it does not "
+                            f"bring member {k} of every split together")
+                continue
+            idx = e.slice if isinstance(e, ast.Subscript) else None
+            elts = idx.elts if isinstance(idx, ast.Tuple) else ([idx] if idx is not None else [])
+            good = len(elts) >= 2 and isinstance(elts[1], ast.Constant) and elts[1].value == k
+            if not good and verdict is True:
+                verdict = None
+                dets.append(f"half map {k}: `{norm_src(e)[:60]}`")
+        rep.ob("S11", a, "the returned half maps are members 0 and 1 of each split (index on axis 1 of the (n_set, 2, ...) array)", verdict, "; ".join(dets)[:400],
+               node=c, fn=f, clause=clause)
+
+
 def loader_clause(model, rep, funcs):
     for a in (LB + "fsc_with_halfmaps", "acryo/loader/_group.py::LoaderGroup.fsc"):
         f = funcs.get(a)
@@ -220,14 +261,17 @@ def loader_clause(model, rep, funcs):
             norm_src(kwarg(sp[0], "squeeze") or ast.Constant(0)) == "False"
         rep.ob("S12", a, "half-maps come from self.average_split with the caller's seed and n_set forwarded unchanged", ok2, norm_src(sp[0])[:90] if sp else "",
                node=f.node, fn=f, clause="loader level", stmt=f"average_split call ({a})")
+        halfmap_selection_obligations(rep, f, a, "loader level")
         guard = any(isinstance(n, ast.If) and norm_src(n.test) == "n_set <= 0" and any(isinstance(x, ast.Raise) for x in ast.walk(n)) for n in walk_no_nested(f.node))
         rep.ob("GUARD", a, "n_set <= 0 is rejected", guard, "", node=f.node, fn=f, clause="loader level", stmt=f"n_set guard ({a})")
     f = funcs.get(LB + "fsc")
     g = funcs.get(LB + "fsc_with_average")
     if f is not None and g is not None:
         rep.instance("S11.fsc", f.loc())
-        ok = Matcher(f).has("return self.fsc_with_average(mask, seed, n_set, dfreq)[0]") or \
-            Matcher(f).has("return self.fsc_with_average(mask, seed, n_set, dfreq, zero_norm=True)[0]")  # the default, spelled out
+        # written with keywords: calls are compared as parameter -> argument bindings under the callee's *current* signature, so a positional call that
+        # lands `dfreq` in another parameter after a signature change does not match
+        ok = Matcher(f).has("return self.fsc_with_average(mask=mask, seed=seed, n_set=n_set, dfreq=dfreq)[0]") or \
+            Matcher(f).has("return self.fsc_with_average(mask=mask, seed=seed, n_set=n_set, dfreq=dfreq, zero_norm=True)[0]")  # the default, spelled out
         ok2 = Matcher(g).has("self.fsc_with_halfmaps(mask=mask, seed=seed, n_set=n_set, dfreq=dfreq, zero_norm=zero_norm, squeeze=False)")
         rep.ob("S12", f.anchor, "fsc -> fsc_with_average -> fsc_with_halfmaps forward mask, seed, n_set and dfreq unchanged", ok and ok2, "", node=f.node, fn=f,
                clause="loader level", stmt="fsc forwarding")
